@@ -38,6 +38,9 @@ fn mk_c07() -> Vec<Box<dyn Monitor>> {
 fn mk_c08() -> Vec<Box<dyn Monitor>> {
     vec![Box::new(mon::c08::C08)]
 }
+fn mk_c17() -> Vec<Box<dyn Monitor>> {
+    vec![Box::new(mon::c17::C17)]
+}
 fn mk_c06() -> Vec<Box<dyn Monitor>> {
     vec![Box::new(mon::swaps::C06)]
 }
@@ -96,6 +99,16 @@ fn specs() -> Vec<CheckSpec> {
         level: "exploration",
         rule: "HIST every landed increase/decrease (v1, v2), by-token-amounts and reposition is checked from balance deltas against exact big-integer amounts (up on deposit, down on withdrawal, one-sided outside the range incl. price on a bound and the shifted state); success implies the caller's max/min was respected; a third are replayed on forks with token_max = cost / cost-1 and token_min = proceeds / proceeds+1; a quarter of the increases are followed on a fork by removing the same liquidity at the unchanged price; by-token-amounts must yield the largest liquidity that fits; a case is one (instruction, price region relative to the range, spacing, liquidity magnitude, zero-amount sides) tuple",
         quick_runs: 400,
+        thorough_secs: 600,
+        assumptions: COMMON_ASSUMPTIONS,
+    },
+    CheckSpec {
+        id: "C17",
+        profile: Profile::TwoHop,
+        mk: mk_c17,
+        level: "exploration",
+        rule: "three pools over three mints (all four direction combinations arise), a router actor quoting on a stale view, plus LPs/traders/keeper under the same faults; every landed two-hop (v1, v2; successful or not) is replayed on a fork of its pre-state as its two single swaps with the second leg's input equal to the first leg's output (exact-out: intermediate amount learned on a scratch fork); success <=> both legs succeed with matching intermediate amount, distinct pools, shared mint and threshold met; on success all pool-side bytes (pools, tick arrays, oracles, vaults) and the trader's balances must be equal; a case is one (instruction, mode, directions, outcome, singles outcome, limits) tuple",
+        quick_runs: 300,
         thorough_secs: 600,
         assumptions: COMMON_ASSUMPTIONS,
     },
